@@ -318,3 +318,37 @@ def std_type_rows(ctx):
     """standard-type parameters reach the pipe row, also when one type is named per pipe (shared with C16)"""
     from contracts.C16 import create_pipes_std_type_list
     create_pipes_std_type_list(ctx)
+
+
+@unit("C19", "FluidPropertyInterExtra/constructor", functions=[FL + ":FluidPropertyInterExtra.__init__"], engine="E1")
+def prop_interextra_init(ctx):
+    """requires@callsite of the assumed contract of scipy's interp1d (A4: the piecewise-linear function through the given
+    points, whatever the order of the rows, extrapolating when asked to): the property object is built from (x, y) in that
+    order with no option that changes that meaning (kind, assume_sorted, axis, copy, bounds_error) -- only fill_value"""
+    ctx.assume("A4", "A6")
+    x, y = K.sym_arr("x_values", z3.Int("NX"), "f"), K.sym_arr("y_values", z3.Int("NX"), "f")
+    for method, want in (("interpolate_extrapolate", {"fill_value": "extrapolate"}), ("Interpolate_Extrapolate", {"fill_value": "extrapolate"}),
+                         ("interpolate", {})):
+        calls = []
+
+        class _I:
+            def call(self, ev, args, kwargs, lineno):
+                calls.append((list(args), dict(kwargs)))
+                return K._UFMethod(z3.Function("interp1d", z3.RealSort(), z3.RealSort()), 1)
+        obj = E.Obj("FluidPropertyInterExtra", {}, cls=fcls("FluidPropertyInterExtra"))
+        try:
+            paths = T.run_paths(ctx, FL + ":FluidPropertyInterExtra.__init__", lambda: ([obj, x, y, method], {}),
+                                hooks={"global": lambda m, n: _I() if n == "interp1d" else None},
+                                contracts={FL + ":FluidProperty.__init__": lambda ev, a, k: None})
+        except Unsupported as e:
+            ctx.undecided("%s/subset" % method, "unsupported", str(e))
+            continue
+        ok = len(paths) == 1 and paths[0].exc is None and len(calls) == 1
+        ctx.decided("%s/one-interpolant-built" % method, "cover", ok, witness=str(([str(p.exc) for p in paths], len(calls))))
+        if not ok:
+            continue
+        a, kw = calls[0]
+        ctx.decided("%s/points-are-(x,y)-in-that-order" % method, "requires@callsite", len(a) == 2 and a[0] is x and a[1] is y,
+                    witness=repr(a))
+        ctx.decided("%s/no-option-that-changes-the-interpolant" % method, "requires@callsite", kw == want,
+                    witness="interp1d keyword arguments %r, expected %r" % (kw, want))
